@@ -135,65 +135,7 @@ def run(ctx):
     if len(chk) != 1:
         r.violate("split_utf8_start|guard", "the fast path no longer checks for a pending streaming decoder", su.loc())
 
-    # ------------------------------------------------------------------ R13.7
-    r = ctx.rule("R13.7", "the first <meta> that declares a usable charset decides: the built-in handler marks `found` only under Some(charset) (and never hands the flag to a call such as mem::replace), and it is registered before the user's element handlers, so it reads the attributes as they are in the input", "E-MIR control dependence / operand order", floor=2)
-    cl = [f for f in mir.fns if f.key == "rewriter::handler_adjust_charset_on_meta_tag::{closure#0}"]
-    if len(cl) != 1:
-        raise EngineError("R13.7: the <meta charset> handler closure was not found")
-    hc = cl[0]
-    wr = []
-    refs = 0
-    for bi, b in enumerate(hc.blocks):
-        for st in b["stmts"]:
-            if st["k"] == "assign" and hc.describe_place(st["p"]).endswith(".found") :
-                wr.append((bi, hc.deep(st["rv"]["o"]) if st["rv"]["k"] == "use" else st["rv"]["k"]))
-            if st["k"] == "assign" and st["rv"]["k"] in ("ref", "rawptr") and st["rv"].get("mut") and hc.describe_place(st["rv"]["p"]).endswith(".found"):
-                refs += 1
-    sets = [(bi, v) for bi, v in wr if v.startswith("const true")]
-    r.inst("meta-handler|found-set-under-some-charset", sample={"writes": [v for _, v in wr], "mutable_borrows_of_found": refs})
-    ok = len(sets) == 1 and refs == 0
-    if ok:
-        gs = [hc.deep(hc.blocks[sb]["term"]["d"]) for sb in guarding_branches(hc, sets[0][0])]
-        ok = any(g.startswith("discr(") and ("or_else" in g or "AsciiCompatibleEncoding" in g or "charset" in g) for g in gs)
-        setc = [bi for bi, t in hc.calls(r"OnceLock.*::set$")]
-        ok = ok and bool(setc) and all(hc.dominates(sets[0][0], c) or hc.dominates(c, sets[0][0]) for c in setc)
-    if not ok:
-        r.violate("meta-handler|found-set-under-some-charset", "the <meta> handler marks the encoding as decided somewhere else than under `Some(charset)`: a <meta name=viewport> (or an unusable charset label) before the real declaration would make the declaration be ignored", hc.loc())
-    # the pragma form counts only for http-equiv=Content-Type: from_mimetype is reached through a filter on that value
-    pr = [g for g in mir.fns if g.key.startswith("rewriter::handler_adjust_charset_on_meta_tag::{closure#0}")]
-    mime_users = [g for g in pr if list(g.calls(r"AsciiCompatibleEncoding::from_mimetype$"))]
-    filt = [g for g in pr if any("Content-Type" in g.deep(a) for bi, t in g.calls(r"eq_ignore_ascii_case$") for a in t["args"])]
-    okp = False
-    for g in pr:
-        for bi, t in g.calls(r"Option::and_then$"):
-            cl_ = [x["rv"]["name"] for a in t["args"][1:] if a.get("k") in ("copy", "move") for kind, dbi, x in g.defs_of(a["p"]["local"]) if kind == "assign" and x["rv"]["k"] == "agg" and x["rv"].get("what") == "closure"]
-            if any(m_.path in cl_ for m_ in mime_users) and "Option::filter(" in g.deep(t["args"][0]) and "http-equiv" in g.deep(t["args"][0]):
-                okp = True
-    r.inst("meta-handler|pragma-only-for-content-type", sample={"from_mimetype_in": [m_.key.split("::")[-1] for m_ in mime_users], "content_type_filters": len(filt)})
-    if not okp or not filt or len(mime_users) != 1:
-        r.violate("meta-handler|pragma-only-for-content-type", "the <meta> handler reads a charset from `content` without requiring http-equiv to be Content-Type (ASCII case-insensitively): `<meta http-equiv=Content-Style-Type content=\"text/css; charset=euc-jp\">` would switch the document encoding and use up the single permitted switch", hc.loc())
-    fs = mir.fn("HtmlRewriteController::from_settings")
-    ch = [(fs.deep(t["args"][0]), fs.deep(t["args"][1])) for bi, t in fs.calls(r"Iterator::chain$|::chain$")]
-    r.inst("from_settings|meta-handler-first", sample={"chain": [(a[:60], b[:60]) for a, b in ch]})
-    if len(ch) != 1 or "charset_adjust_handler" not in ch[0][0] or "element_content_handlers" not in ch[0][1]:
-        r.violate("from_settings|meta-handler-first", f"the built-in <meta charset> handler is not registered before the user's element handlers ({ch}): a user handler that rewrites the charset/content attribute would change the encoding the rest of the document is decoded with", fs.loc())
-
-    # every text chunk carries the document encoding (it selects the encoder for the chunk and for what handlers attach to it)
-    ftx = mir.fn("TextDecoder::feed_text")
-    encs = []
-    for bi_, t_ in ftx.calls(r"FnMut::call_mut$|call_mut$"):
-        if len(t_["args"]) >= 2:
-            ag_ = None
-            a1 = t_["args"][1]
-            if a1.get("k") in ("copy", "move"):
-                for kind_, dbi_, x_ in ftx.defs_of(a1["p"]["local"]):
-                    if kind_ == "assign" and x_["rv"]["k"] == "agg" and x_["rv"].get("what") == "tuple":
-                        ag_ = x_["rv"]
-            if ag_ and len(ag_["ops"]) >= 3:
-                encs.append(ftx.deep(ag_["ops"][2]))
-    r.inst("feed_text|chunk-encoding", sample={"encoding_operands": [e_[:60] for e_ in encs]})
-    if len(encs) != 2 or any(("static " in e_) or ("self.encoding" not in e_) for e_ in encs):
-        r.violate("feed_text|chunk-encoding", f"TextDecoder::feed_text hands a text chunk to the handlers with encoding {encs} instead of the document encoding on both paths: content a handler attaches to such a chunk is written as raw UTF-8 into a legacy-encoded document (no transcoding, no numeric character references)", ftx.loc())
+    rule_meta_charset(ctx, mir)
 
     # ------------------------------------------------------------------ R13.6 (see _r136_post below)
     r = ctx.rule("R13.6", "document bytes are taken as UTF-8 only when the document encoding is UTF-8: every str::from_utf8 / String::from_utf8* on non-test paths is dominated by a test `encoding == UTF_8`, or sits in a reviewed function whose input is not document bytes", "E-MIR dominance", floor=4)
@@ -296,3 +238,65 @@ def clause_ascii_compatible_ctor(r, mir):
                     key = f"{f.key}|constructor-as-function"
                     r.inst(key)
                     r.violate(key, f"{f.key} uses the tuple constructor of AsciiCompatibleEncoding as a function (e.g. `.map(Self)`): the encoding it wraps is not checked with is_ascii_compatible(), so a label such as utf-16 or iso-2022-jp (from <meta http-equiv content=...; charset=...>) switches the rewriter to an encoding in which markup bytes are not ASCII", f.loc())
+
+
+def rule_meta_charset(ctx, mir, rid="R13.7"):
+    # ------------------------------------------------------------------ R13.7
+    r = ctx.rule(rid, "the first <meta> that declares a usable charset decides: the built-in handler marks `found` only under Some(charset) (and never hands the flag to a call such as mem::replace), and it is registered before the user's element handlers, so it reads the attributes as they are in the input", "E-MIR control dependence / operand order", floor=2)
+    cl = [f for f in mir.fns if f.key == "rewriter::handler_adjust_charset_on_meta_tag::{closure#0}"]
+    if len(cl) != 1:
+        raise EngineError("R13.7: the <meta charset> handler closure was not found")
+    hc = cl[0]
+    wr = []
+    refs = 0
+    for bi, b in enumerate(hc.blocks):
+        for st in b["stmts"]:
+            if st["k"] == "assign" and hc.describe_place(st["p"]).endswith(".found") :
+                wr.append((bi, hc.deep(st["rv"]["o"]) if st["rv"]["k"] == "use" else st["rv"]["k"]))
+            if st["k"] == "assign" and st["rv"]["k"] in ("ref", "rawptr") and st["rv"].get("mut") and hc.describe_place(st["rv"]["p"]).endswith(".found"):
+                refs += 1
+    sets = [(bi, v) for bi, v in wr if v.startswith("const true")]
+    r.inst("meta-handler|found-set-under-some-charset", sample={"writes": [v for _, v in wr], "mutable_borrows_of_found": refs})
+    ok = len(sets) == 1 and refs == 0
+    if ok:
+        gs = [hc.deep(hc.blocks[sb]["term"]["d"]) for sb in guarding_branches(hc, sets[0][0])]
+        ok = any(g.startswith("discr(") and ("or_else" in g or "AsciiCompatibleEncoding" in g or "charset" in g) for g in gs)
+        setc = [bi for bi, t in hc.calls(r"OnceLock.*::set$")]
+        ok = ok and bool(setc) and all(hc.dominates(sets[0][0], c) or hc.dominates(c, sets[0][0]) for c in setc)
+    if not ok:
+        r.violate("meta-handler|found-set-under-some-charset", "the <meta> handler marks the encoding as decided somewhere else than under `Some(charset)`: a <meta name=viewport> (or an unusable charset label) before the real declaration would make the declaration be ignored", hc.loc())
+    # the pragma form counts only for http-equiv=Content-Type: from_mimetype is reached through a filter on that value
+    pr = [g for g in mir.fns if g.key.startswith("rewriter::handler_adjust_charset_on_meta_tag::{closure#0}")]
+    mime_users = [g for g in pr if list(g.calls(r"AsciiCompatibleEncoding::from_mimetype$"))]
+    filt = [g for g in pr if any("Content-Type" in g.deep(a) for bi, t in g.calls(r"eq_ignore_ascii_case$") for a in t["args"])]
+    okp = False
+    for g in pr:
+        for bi, t in g.calls(r"Option::and_then$"):
+            cl_ = [x["rv"]["name"] for a in t["args"][1:] if a.get("k") in ("copy", "move") for kind, dbi, x in g.defs_of(a["p"]["local"]) if kind == "assign" and x["rv"]["k"] == "agg" and x["rv"].get("what") == "closure"]
+            if any(m_.path in cl_ for m_ in mime_users) and "Option::filter(" in g.deep(t["args"][0]) and "http-equiv" in g.deep(t["args"][0]):
+                okp = True
+    r.inst("meta-handler|pragma-only-for-content-type", sample={"from_mimetype_in": [m_.key.split("::")[-1] for m_ in mime_users], "content_type_filters": len(filt)})
+    if not okp or not filt or len(mime_users) != 1:
+        r.violate("meta-handler|pragma-only-for-content-type", "the <meta> handler reads a charset from `content` without requiring http-equiv to be Content-Type (ASCII case-insensitively): `<meta http-equiv=Content-Style-Type content=\"text/css; charset=euc-jp\">` would switch the document encoding and use up the single permitted switch", hc.loc())
+    fs = mir.fn("HtmlRewriteController::from_settings")
+    ch = [(fs.deep(t["args"][0]), fs.deep(t["args"][1])) for bi, t in fs.calls(r"Iterator::chain$|::chain$")]
+    r.inst("from_settings|meta-handler-first", sample={"chain": [(a[:60], b[:60]) for a, b in ch]})
+    if len(ch) != 1 or "charset_adjust_handler" not in ch[0][0] or "element_content_handlers" not in ch[0][1]:
+        r.violate("from_settings|meta-handler-first", f"the built-in <meta charset> handler is not registered before the user's element handlers ({ch}): a user handler that rewrites the charset/content attribute would change the encoding the rest of the document is decoded with", fs.loc())
+
+    # every text chunk carries the document encoding (it selects the encoder for the chunk and for what handlers attach to it)
+    ftx = mir.fn("TextDecoder::feed_text")
+    encs = []
+    for bi_, t_ in ftx.calls(r"FnMut::call_mut$|call_mut$"):
+        if len(t_["args"]) >= 2:
+            ag_ = None
+            a1 = t_["args"][1]
+            if a1.get("k") in ("copy", "move"):
+                for kind_, dbi_, x_ in ftx.defs_of(a1["p"]["local"]):
+                    if kind_ == "assign" and x_["rv"]["k"] == "agg" and x_["rv"].get("what") == "tuple":
+                        ag_ = x_["rv"]
+            if ag_ and len(ag_["ops"]) >= 3:
+                encs.append(ftx.deep(ag_["ops"][2]))
+    r.inst("feed_text|chunk-encoding", sample={"encoding_operands": [e_[:60] for e_ in encs]})
+    if len(encs) != 2 or any(("static " in e_) or ("self.encoding" not in e_) for e_ in encs):
+        r.violate("feed_text|chunk-encoding", f"TextDecoder::feed_text hands a text chunk to the handlers with encoding {encs} instead of the document encoding on both paths: content a handler attaches to such a chunk is written as raw UTF-8 into a legacy-encoded document (no transcoding, no numeric character references)", ftx.loc())
